@@ -220,30 +220,42 @@ VARIABLES prog,      \* the chain being evaluated
           scopes,    \* permission scopes entered, outermost first (sets of flags)
           phase,     \* "idle" | "validating" | "rejected" | "running" | "done"
           visited,   \* nodes of the chain the validator has looked at
-          ran        \* TRUE once any part of the program has been executed (the sentinel)
-vars == <<prog, scopes, phase, visited, ran>>
+          ran,       \* TRUE once any part of the program has been executed (the sentinel)
+          arg        \* the permission ARGUMENT of this evaluate()/run() call: NoArg or a set of flags
+vars == <<prog, scopes, phase, visited, ran, arg>>
+
+NoArg == {"#no permission argument"}
+\* The argument can narrow what the open scopes grant, never widen it: with both present the
+\* evaluation runs under their intersection; with only one of them, under that one.
+Combine(scope, a) == IF a = NoArg THEN scope ELSE scope \cap a
+ArgChoices(c) == {NoArg, ALLP, {}, Must(c), Must(c) \cup Amb(c)} \cup {ALLP \ {f} : f \in Must(c)}
 
 \* the permission sets tried around a program: everything, everything but one needed flag,
 \* only the needed flags, BASIC, nothing
 PermChoices(c) ==
   {ALLP, BASICP, {}, Must(c), Must(c) \cup Amb(c)} \cup {ALLP \ {f} : f \in Must(c) \cup Amb(c)}
 
-Effective == scopes[1]                      \* the outermost scope wins
+\* the outermost scope wins among the scopes; the call's own argument can only narrow it
+Effective == IF scopes = <<>> THEN arg ELSE Combine(scopes[1], arg)
 NodeSeq(c) == [i \in 1..((Len(c) + 1) \div 2) |-> c[2 * i - 1]]
 SlotBefore(c, i) == IF i = 1 THEN "top" ELSE c[2 * i - 2]
 
 Init ==
   /\ prog \in AllChains(MaxDepth)
-  /\ scopes = <<>> /\ phase = "idle" /\ visited = 0 /\ ran = FALSE
+  /\ scopes = <<>> /\ phase = "idle" /\ visited = 0 /\ ran = FALSE /\ arg = NoArg
 
 EnterScope(p) ==
   /\ phase = "idle" /\ Len(scopes) < MaxScopes
   /\ scopes' = Append(scopes, p)
-  /\ UNCHANGED <<prog, phase, visited, ran>>
+  /\ UNCHANGED <<prog, phase, visited, ran, arg>>
 
-StartEvaluate ==
-  /\ phase = "idle" /\ scopes # <<>>
-  /\ phase' = "validating"
+\* evaluate(code, permission=a): some permission must be in force (a scope or the argument), otherwise
+\* nothing is validated at all; an argument is explored under at most one open scope (state space)
+StartEvaluate(a) ==
+  /\ phase = "idle"
+  /\ scopes # <<>> \/ a # NoArg
+  /\ a # NoArg => Len(scopes) <= 1
+  /\ phase' = "validating" /\ arg' = a
   /\ UNCHANGED <<prog, scopes, visited, ran>>
 
 \* the validator looks at the next node (and the slot it sits in)
@@ -259,36 +271,42 @@ VisitNode ==
            \/ visited' = visited + 1 /\ UNCHANGED phase
      \/ /\ need \subseteq Effective /\ may \subseteq Effective
         /\ visited' = visited + 1 /\ UNCHANGED phase
-  /\ UNCHANGED <<prog, scopes, ran>>
+  /\ UNCHANGED <<prog, scopes, ran, arg>>
 
 FinishValidate ==
   /\ phase = "validating" /\ visited = Len(NodeSeq(prog))
   /\ phase' = "running"
-  /\ UNCHANGED <<prog, scopes, visited, ran>>
+  /\ UNCHANGED <<prog, scopes, visited, ran, arg>>
 
 Run ==
   /\ phase = "running"
   /\ ran' = TRUE /\ phase' = "done"
-  /\ UNCHANGED <<prog, scopes, visited>>
+  /\ UNCHANGED <<prog, scopes, visited, arg>>
 
 Next == \/ \E p \in PermChoices(prog) : EnterScope(p)
-        \/ StartEvaluate \/ VisitNode \/ FinishValidate \/ Run
+        \/ \E a \in ArgChoices(prog) : StartEvaluate(a)
+        \/ VisitNode \/ FinishValidate \/ Run
 Spec == Init /\ [][Next]_vars
 
 \* nothing of a program containing a forbidden construct is ever executed
-NoForbiddenRuns == ran => Must(prog) \subseteq scopes[1]
+NoForbiddenRuns == ran => Must(prog) \subseteq Effective
 \* execution starts only after every node has been validated
 ValidateBeforeRun == phase \in {"running", "done"} => visited = Len(NodeSeq(prog))
 RanOnlyWhenDone == ran => phase = "done"
-\* an inner scope never widens: what runs is allowed by the OUTERMOST scope, whatever follows it
-Narrowing == ran => \A i \in 1..Len(scopes) : "ALLOW" \in Verdict(prog, scopes[1])
+\* an outer scope is only ever narrowed: whatever runs is allowed by the OUTERMOST open scope - whatever
+\* scopes are nested inside it and whatever permission ARGUMENT the call itself carries
+Narrowing == (ran /\ scopes # <<>>) => "ALLOW" \in Verdict(prog, scopes[1])
+\* ... and by the call's own argument, if it has one
+ArgumentRespected == (ran /\ arg # NoArg) => "ALLOW" \in Verdict(prog, arg)
 \* a program is refused only if some construct really lacks a (possibly ambiguous) permission
-RejectJustified == phase = "rejected" => "REJECT" \in Verdict(prog, scopes[1])
+RejectJustified == phase = "rejected" => "REJECT" \in Verdict(prog, Effective)
 \* the mechanism and the verdict table agree
 OutcomeInVerdict ==
-  /\ phase = "done" => "ALLOW" \in Verdict(prog, scopes[1])
-  /\ phase = "rejected" => "REJECT" \in Verdict(prog, scopes[1])
-\* a program whose every (must and may) flag is granted by the outermost scope always gets to run
+  /\ phase = "done" => "ALLOW" \in Verdict(prog, Effective)
+  /\ phase = "rejected" => "REJECT" \in Verdict(prog, Effective)
+\* a program whose every (must and may) flag is granted by what is in force always gets to run
 AllowedEventuallyRuns ==
-  (phase # "idle" /\ (Must(prog) \cup Amb(prog)) \subseteq scopes[1]) => phase # "rejected"
+  (phase # "idle" /\ (Must(prog) \cup Amb(prog)) \subseteq Effective) => phase # "rejected"
+\* the combination is a narrowing of both and widens neither (checked on all 256 x 256 pairs by PermExport)
+CombineNarrows == \A p, q \in SUBSET Flags : Combine(p, q) \subseteq p /\ Combine(p, q) \subseteq q /\ Combine(p, NoArg) = p
 =============================================================================
